@@ -149,7 +149,13 @@ fn format_variant(
                         Some(type_override) => quote!(#type_override),
                         None => {
                             let ty = field_attr.type_as(&field.ty);
-                            quote!(<#ty as #crate_rename::TS>::name())
+                            // the dependencies of an inlined field are those of its definition, not
+                            // the type itself - so its definition is what has to be written here
+                            if field_attr.inline {
+                                quote!(<#ty as #crate_rename::TS>::inline())
+                            } else {
+                                quote!(<#ty as #crate_rename::TS>::name())
+                            }
                         }
                     };
                     quote!(
@@ -180,7 +186,12 @@ fn format_variant(
                             Some(type_override) => quote! { #type_override },
                             None => {
                                 let ty = field_attr.type_as(&field.ty);
-                                quote!(<#ty as #crate_rename::TS>::name())
+                                if field_attr.inline {
+                                    // (see above) - parenthesised, the definition may be a union
+                                    quote!(format!("({})", <#ty as #crate_rename::TS>::inline()))
+                                } else {
+                                    quote!(<#ty as #crate_rename::TS>::name())
+                                }
                             }
                         };
 
